@@ -59,9 +59,9 @@ theorem eqChars_iff_normRe (ic : Bool) (p : List Char) : ∀ n : List Char,
         · rintro ⟨h1, h2⟩; exact ⟨h1.symm, h2⟩
         · rintro ⟨h1, h2⟩; exact ⟨h1.symm, h2⟩
 
-/-- `str.upper` agrees on two strings iff it agrees character by character -/
+/-- `str.upper` agrees on two strings iff the per-character upper cases concatenate to the same string -/
 theorem upper_eq_iff (s t : String) :
-    upper s = upper t ↔ s.toList.map upperChar = t.toList.map upperChar := by
+    upper s = upper t ↔ s.toList.flatMap upperStr = t.toList.flatMap upperStr := by
   unfold upper
   exact String.ofList_inj
 
